@@ -137,6 +137,17 @@ func c04ListingOrder(o *Out, r *Rng, c int) {
 		q.Body["biases"] = []interface{}{J{"name": "criteriaConcealment", "props": pr}}
 		o.count("listing-order:with-concealment")
 	}
+	if r.chance(0.06) {
+		// "any number of considered alternatives" includes none: an empty ranking, not an error
+		q0 := cloneJ(q.Body)
+		q0["choseToMake"] = []interface{}{}
+		delete(q0, "biases")
+		st0, resp0 := decideBody(q0)
+		e0, ok0 := c04Entries(resp0)
+		m0 := Meta{Stage: "zero-alternatives", Case: c, Input: J{"request": q0}, Key: "zero" + string(q.JSON()), GoOut: truncate(string(resp0), 300)}
+		o.Oracle(m0, st0 == 200 && ok0 && len(e0) == 0, "a request with an empty choseToMake is not answered with an empty ranking")
+		o.count("zero-alternatives")
+	}
 	st1, resp1 := decideBody(q.Body)
 	q2 := cloneJ(q.Body)
 	known := q2["knownAlternatives"].([]interface{})
